@@ -33,54 +33,54 @@ pub fn plan(prop: &str, tier: Tier) -> Option<Plan> {
         "codec libraries (flate2, brotli, zstd) are a trusted base shared by crate and oracle".into(),
     ];
     let (p, level, batches): (&'static str, &'static str, Vec<Batch>) = match prop {
-        "C01" => ("C01", "exploration", vec![b(Lifecycle { prop: "C01", huge_pct: 1, window_pct: 1 }, 2500, 150_000, t)]),
+        "C01" => ("C01", "exploration", vec![b(Lifecycle { prop: "C01", huge_pct: 1, window_pct: 1 }, 12_000, 300_000, t)]),
         "C02" => {
             assumptions.push("validator written from the v3 specification text; shares no code with the crate".into());
-            ("C02", "exploration", vec![b(Lifecycle { prop: "C02", huge_pct: 2, window_pct: 5 }, 2500, 150_000, t)])
+            ("C02", "exploration", vec![b(Lifecycle { prop: "C02", huge_pct: 2, window_pct: 5 }, 10_000, 300_000, t)])
         }
         "C10" => {
             assumptions.push("64-bit content-hash collisions among generated contents are assumed not to occur".into());
-            ("C10", "exploration", vec![b(Lifecycle { prop: "C10", huge_pct: 1, window_pct: 0 }, 2000, 100_000, t), b(History { prop: "C10" }, 6000, 400_000, t)])
+            ("C10", "exploration", vec![b(Lifecycle { prop: "C10", huge_pct: 1, window_pct: 0 }, 6000, 200_000, t), b(History { prop: "C10" }, 20_000, 1_000_000, t)])
         }
-        "C04" => ("C04", "exploration", vec![b(History { prop: "C04" }, 12_000, 1_000_000, t)]),
-        "C06" => ("C06", "exploration", vec![b(SpillUtil, 600, 60_000, t), b(Lifecycle { prop: "C06", huge_pct: 30, window_pct: 40 }, 150, 6000, t)]),
+        "C04" => ("C04", "exploration", vec![b(History { prop: "C04" }, 40_000, 3_000_000, t)]),
+        "C06" => ("C06", "exploration", vec![b(SpillUtil, 1800, 120_000, t), b(Lifecycle { prop: "C06", huge_pct: 30, window_pct: 40 }, 400, 20_000, t)]),
         "C03" => {
             assumptions.push("foreign archives come from the independent spec-level writer; each generated image is first accepted by the independent validator".into());
-            ("C03", "exploration", vec![b(ForeignOpen, 2000, 120_000, t)])
+            ("C03", "exploration", vec![b(ForeignOpen, 8000, 400_000, t)])
         }
-        "C11" => ("C11", "exploration", vec![b(PartialOpen, 1200, 100_000, t)]),
-        "C20" => ("C20", "exploration", vec![b(LazyOpen, 2000, 150_000, t)]),
-        "C12" => ("C12", "exploration", vec![b(SyncAsync, 2500, 200_000, t)]),
+        "C11" => ("C11", "exploration", vec![b(PartialOpen, 4000, 300_000, t)]),
+        "C20" => ("C20", "exploration", vec![b(LazyOpen, 8000, 400_000, t)]),
+        "C12" => ("C12", "exploration", vec![b(SyncAsync, 8000, 400_000, t)]),
         "C13" => {
             assumptions.push("schedule space is exactly the property's: transfers >= 1 byte and Pending; no errors, no Interrupted".into());
-            ("C13", "exploration", vec![b(Fragmentation, 1500, 60_000, t)])
+            ("C13", "exploration", vec![b(Fragmentation, 5000, 200_000, t)])
         }
         "C15" => {
             assumptions.push("verdict uses fail-stop faults only (operation k and all later ones fail); transient and writes-only faults are exploratory and reported under extra_observations".into());
-            ("C15", "fault_enumeration", vec![b(FailStop, 160, 5000, t)])
+            ("C15", "fault_enumeration", vec![b(FailStop, 400, 12_000, t)])
         }
         "C16" => {
             assumptions.push("cross-process clause: a sample of runs is recomputed by a second pmtsim process with its own hash keys and natural iteration order".into());
-            ("C16", "exploration", vec![b(Canonical, 2500, 200_000, t)])
+            ("C16", "exploration", vec![b(Canonical, 10_000, 500_000, t)])
         }
         "C17" => {
             assumptions.push("each write call is atomic (transfers are never split in this scenario), as the property states; the stream is fresh".into());
-            ("C17", "fault_enumeration", vec![b(TornWrite, 250, 15_000, t)])
+            ("C17", "fault_enumeration", vec![b(TornWrite, 1200, 60_000, t)])
         }
-        "C18" => ("C18", "exploration", vec![b(StartPos, 1500, 100_000, t)]),
+        "C18" => ("C18", "exploration", vec![b(StartPos, 6000, 300_000, t)]),
         "C09" => {
             assumptions.push("the exhaustive sweep over all 2^32 stored coordinate values is not attempted (that is enumeration, not simulation); stored values are sampled incl. boundaries".into());
-            ("C09", "exploration", vec![b(HeaderFaults, 0, 0, t), b(HeaderRandom, 60_000, 20_000_000, t)])
+            ("C09", "exploration", vec![b(HeaderFaults, 0, 0, t), b(HeaderRandom, 400_000, 100_000_000, t)])
         }
         "C14" => {
             assumptions.push("gzip output is additionally decoded by CPython zlib on a sample when python3 is present".into());
-            ("C14", "exploration", vec![b(Codec, 3000, 300_000, t)])
+            ("C14", "exploration", vec![b(Codec, 6000, 300_000, t)])
         }
-        "C19" => ("C19", "exploration", vec![b(Rejections, 3000, 300_000, t), b(History { prop: "C19" }, 3000, 300_000, t)]),
+        "C19" => ("C19", "exploration", vec![b(Rejections, 12_000, 1_000_000, t), b(History { prop: "C19" }, 12_000, 1_000_000, t)]),
         "C08" => {
             assumptions.push("inputs whose directories declare more than 2^20 tiles/steps (measured by the iterative reference walker) are outside the claim and skipped (counted)".into());
             assumptions.push("a single allocation request above 8 GiB is refused by the harness allocator (deterministic stand-in for 'aborting on an absurd allocation')".into());
-            ("C08", "exploration", vec![b(HostileCorpus, 0, 0, t), b(HostileSweep, 0, 0, t), b(HostileMutate, 15_000, 1_500_000, t)])
+            ("C08", "exploration", vec![b(HostileCorpus, 0, 0, t), b(HostileSweep, 0, 0, t), b(HostileMutate, 40_000, 3_000_000, t)])
         }
         _ => return None,
     };
